@@ -1,0 +1,33 @@
+//go:build verif
+// +build verif
+
+// Package verifhooks re-exports internal tables and helpers for the external
+// verification harness. It only exists when building with the "verif" tag.
+package verifhooks
+
+import (
+	"github.com/kstenerud/go-concise-encoding/internal/chars"
+	"github.com/kstenerud/go-concise-encoding/internal/common"
+)
+
+func CalculateRuneByteCount(startByte byte) int { return chars.CalculateRuneByteCount(startByte) }
+
+func IndexOfLastRuneStart(data []byte) (int, bool) { return chars.IndexOfLastRuneStart(data) }
+
+func IsRuneValidIdentifier(r rune) bool { return chars.IsRuneValidIdentifier(r) }
+
+func IsIdentifierSafe(str []byte) bool { return chars.IsIdentifierSafe(str) }
+
+func IsRuneSafeFor(r rune, flags uint64) bool {
+	return chars.IsRuneSafeFor(r, chars.SafetyFlags(flags))
+}
+
+const (
+	SafetyString  = uint64(chars.SafetyString)
+	SafetyComment = uint64(chars.SafetyComment)
+	SafetyAll     = uint64(chars.SafetyAll)
+)
+
+func ElementCountToByteCount(elementBitWidth int, elementCount uint64) uint64 {
+	return common.ElementCountToByteCount(elementBitWidth, elementCount)
+}
